@@ -39,3 +39,6 @@ pub(crate) const LOG_TARGET_FILTER: &str = "ckb_filter";
 /// verification hook: the in-flight table types (module `types` is private); add-only, off by default
 #[cfg(feature = "verif-hooks")]
 pub use crate::types::{InflightBlocks, InflightState};
+
+#[cfg(feature = "verif-hooks")]
+pub use crate::relayer::{ReconstructionResult, verif_compact_block_verify};
